@@ -599,6 +599,19 @@ func replyFor(g *genCtx, sp sessParams, class byte, fn, cmdNo byte, prefix []byt
 	b := newSimBMC([]byte(fixedPass), nil)
 	b.integ, b.conf, b.sidm, b.k1, b.k2 = sp.integ, 1, sp.lid, sp.k1, sp.k2
 	b.outSeq = uint32(100 + attempt)
+	// the BMC's outbound counter is its own: mostly small and increasing with the attempt, sometimes far ahead of / behind
+	// the previous reply's, at the extremes, or repeated (seed C10-B12: a rejected reply's number was recorded)
+	switch g.rng.Intn(10) {
+	case 0:
+		b.outSeq = g.rng.Uint32()
+	case 1:
+		b.outSeq = uint32(0x00100000 + g.rng.Intn(1<<16) - 50*attempt)
+	case 2:
+		b.outSeq = []uint32{0, 1, 0xFFFFFFFF, 0x7FFFFFFF, 0x80000000}[g.rng.Intn(5)]
+	case 3:
+		b.outSeq = uint32(1000 - attempt)
+	}
+	forgedSeq := []uint32{1, 1, 0, b.outSeq, 0x00100000 + uint32(g.rng.Intn(1<<16)), 0xFFFFFFFF, g.rng.Uint32()}[g.rng.Intn(7)]
 	b.ivCtr = byte(g.rng.Intn(256))
 	rsp := func(netfn, cmd, cc byte, data []byte) []byte {
 		c := cc
@@ -620,9 +633,9 @@ func replyFor(g *genCtx, sp sessParams, class byte, fn, cmdNo byte, prefix []byt
 		c := cc2
 		r = b.seal(specMessage(0x81, fn2|1, 0, 0x20, 1, 0, cmd2, &c, prefix2, data2))
 	case 'U': // forged: no AuthCode, no encryption, attacker's session ID
-		r = b.sealWith(rsp(fn, cmdNo, 0, []byte{0x66}), 0xDEADBEEF, 1, false, false, nil, nil)
+		r = b.sealWith(rsp(fn, cmdNo, 0, []byte{0x66}), 0xDEADBEEF, forgedSeq, false, false, nil, nil)
 	case 'V': // authenticated flag cleared, plaintext, our session ID
-		r = b.sealWith(rsp(fn, cmdNo, 0, []byte{0x67}), sp.lid, 1, false, false, nil, nil)
+		r = b.sealWith(rsp(fn, cmdNo, 0, []byte{0x67}), sp.lid, forgedSeq, false, false, nil, nil)
 	case 'W': // authentic under K1 but addressed to another session
 		r = b.sealWith(rsp(fn, cmdNo, 0, body), 0x12345678, b.outSeq, true, true, sp.k1, sp.k2)
 	case 'S': // one bit of the AuthCode flipped
